@@ -215,3 +215,36 @@ Proof.
   - unfold exec_step in E. rewrite Ht in E. eapply members_continue_all_ended; eauto.
   - eapply IH; eauto.
 Qed.
+
+(* ---- which rewrites of a join are harmless: a more absorbing await style, or an added done() guard, keeps a safe
+        join safe (so e.g. turning a bare `await t` into try/except CancelledError can never break stop()) ------- *)
+Definition style_le (a b : style) : bool :=
+  match a, b with
+  | SBare, _ => true
+  | SCatch, SCatch | SCatch, SGather => true
+  | SGather, SGather => true
+  | _, _ => false
+  end.
+
+Lemma safe_join_monotone slots t g g' st st' :
+  style_le st st' = true -> (g = true -> g' = true) ->
+  step_safe slots (CancelAwait t g st) = true -> step_safe slots (CancelAwait t g' st') = true.
+Proof.
+  intros Hs Hg H. cbn [step_safe] in *.
+  destruct (nth t slots default_slot) as [[pts ca] mu mc mf]. unfold all_points in *.
+  cbn [s_routine r_points s_may_unstarted s_may_cancelled s_may_fail] in *.
+  apply andb_prop in H as [H Hst]. rewrite H. cbn [andb].
+  destruct st, st'; cbn in Hs; try discriminate; try reflexivity.
+  - (* bare -> bare *)
+    repeat (apply andb_prop in Hst as [Hst ?]).
+    destruct g; [rewrite (Hg eq_refl); cbn; rewrite Hst; cbn;
+                 match goal with H1 : negb mu = true |- _ => rewrite H1 end; reflexivity|].
+    cbn in *. rewrite Hst. cbn.
+    repeat match goal with H1 : _ = true |- _ => rewrite H1 end. rewrite !orb_true_r. reflexivity.
+  - (* bare -> catch *)
+    repeat (apply andb_prop in Hst as [Hst ?]).
+    destruct g; [rewrite (Hg eq_refl); reflexivity|]. cbn in *.
+    match goal with H1 : negb mf = true |- _ => rewrite H1 end. apply orb_true_r.
+  - (* catch -> catch *)
+    destruct g; [rewrite (Hg eq_refl); reflexivity|]. cbn in Hst. rewrite Hst. apply orb_true_r.
+Qed.
